@@ -480,8 +480,14 @@ func LoadsOf(c *Cell) []*ssa.UnOp {
 // captured variable, global or call ("c.mu", "r.value", "l.ch"); "" when
 // the value has no such path. Loads and address-of are transparent, so the
 // path names the variable, not the SSA temporary.
-func AccessPath(v ssa.Value) string {
+func AccessPath(v ssa.Value) string { return accessPath(v, map[ssa.Value]bool{}) }
+
+func accessPath(v ssa.Value, seen map[ssa.Value]bool) string {
 	for depth := 0; depth < 12; depth++ {
+		if seen[v] {
+			return ""
+		}
+		seen[v] = true
 		switch x := v.(type) {
 		case *ssa.Parameter:
 			return x.Name()
@@ -495,13 +501,13 @@ func AccessPath(v ssa.Value) string {
 			}
 			return ""
 		case *ssa.FieldAddr:
-			base := AccessPath(x.X)
+			base := accessPath(x.X, seen)
 			if base == "" {
 				return ""
 			}
 			return base + "." + fieldName(x.X.Type(), x.Field)
 		case *ssa.Field:
-			base := AccessPath(x.X)
+			base := accessPath(x.X, seen)
 			if base == "" {
 				return ""
 			}
@@ -524,7 +530,7 @@ func AccessPath(v ssa.Value) string {
 			// a phi of identical paths is that path
 			p := ""
 			for i, e := range x.Edges {
-				q := AccessPath(e)
+				q := accessPath(e, seen)
 				if i == 0 {
 					p = q
 				} else if q != p {
